@@ -206,62 +206,92 @@ def compPairBits (depth frameSize : Nat) (ls rs : List Int) (mixRes : Nat) (cU c
     (if bs ≠ 0 then m.2.2.flatMap fun ab => bitsOf (ab.1 * 2 ^ (8 * bs) + ab.2) (2 * (8 * bs)) else []) ++
     dynComp stdAg (pcBlock m.1 cU numU chanBits 9).1 chanBits ++ dynComp stdAg (pcBlock m.2.1 cV numV chanBits 9).1 chanBits
 
+/-- the running state of EncodeStereo's mixRes loop: best bit count so far, its mixRes, the coefficient tables, and what
+    the last round left in mPredictorU / V -/
+structure MixAcc where
+  minB  : Nat
+  best  : Int
+  rowsU : List (List Int)
+  rowsV : List (List Int)
+  pcU   : List Int
+  pcV   : List Int
+
+/-- one round of the mixRes loop: mix the first n / 8 frames, run pc_block with 8 coefficients (row 7), count the bits -/
+def mixStep (depth chanBits : Nat) (lsd rsd : List Int) (a : MixAcc) (mixRes : Nat) : MixAcc :=
+  let m := mixPairs depth (bytesShiftedOf depth) mixRes lsd rsd
+  let pu := pcBlock m.1 (a.rowsU.getD 7 []) 8 chanBits 9
+  let pv := pcBlock m.2.1 (a.rowsV.getD 7 []) 8 chanBits 9
+  let b := (dynComp stdAg pu.1 chanBits).length + (dynComp stdAg pv.1 chanBits).length
+  { minB := if b < a.minB then b else a.minB, best := if b < a.minB then (mixRes : Int) else a.best,
+    rowsU := a.rowsU.set 7 pu.2, rowsV := a.rowsV.set 7 pv.2, pcU := pu.1, pcV := pv.1 }
+
+def mixSearch (depth chanBits : Nat) (st : EncChan) (lsd rsd : List Int) : MixAcc :=
+  [0, 1, 2, 3, 4].foldl (mixStep depth chanBits lsd rsd) ⟨2147483648, st.lastMixRes, st.coefsU, st.coefsV, [], []⟩
+
+/-- the running state of one candidate order of the coefficient search -/
+structure TryAcc where
+  pcU   : List Int
+  rowsU : List (List Int)
+  pcV   : List Int
+  rowsV : List (List Int)
+
+/-- one of the 8 converge rounds: pc_block over the first n / 32 frames of both channels -/
+def tryStep (chanBits numUV n : Nat) (u v : List Int) (a : TryAcc) (_ : Nat) : TryAcc :=
+  let pU := pcBlock (u.take (n / 32)) (a.rowsU.getD (numUV - 1) []) numUV chanBits 9
+  let pV := pcBlock (v.take (n / 32)) (a.rowsV.getD (numUV - 1) []) numUV chanBits 9
+  { pcU := pU.1, rowsU := a.rowsU.set (numUV - 1) pU.2, pcV := pV.1, rowsV := a.rowsV.set (numUV - 1) pV.2 }
+
+/-- mPredictorU / V [0 .. n / 8): the round's residuals, then what its warm-up loop stored up to index numUV, then the older content -/
+def predOf (chanBits numUV n : Nat) (x fresh stale : List Int) : List Int :=
+  (List.range (n / 8)).map fun i =>
+    if i < fresh.length then fresh.getD i 0
+    else if i ≤ numUV then (if i = 0 then x.getD 0 0 else sx chanBits (w32 (x.getD i 0 - x.getD (i - 1) 0)))
+    else stale.getD i 0
+
+/-- one candidate order: (estimate for U, estimate for V, tables) — the bit count runs over n / 8 residuals of mPredictorU / V of
+    which only the first n / 32 are from this candidate's rounds -/
+def pairTry (chanBits numUV n : Nat) (u v staleU staleV : List Int) (rowsU rowsV : List (List Int)) : Nat × Nat × List (List Int) × List (List Int) :=
+  let a := (List.range 8).foldl (tryStep chanBits numUV n u v) ⟨[], rowsU, [], rowsV⟩
+  ((dynComp stdAg (predOf chanBits numUV n u a.pcU staleU) chanBits).length * 8 + 16 * numUV,
+    (dynComp stdAg (predOf chanBits numUV n v a.pcV staleV) chanBits).length * 8 + 16 * numUV, a.rowsU, a.rowsV)
+
+/-- what EncodeStereo's search settles on -/
+structure PairChoice where
+  bestRes : Int
+  numU : Nat
+  numV : Nat
+  est  : Nat
+  rowsU : List (List Int)
+  rowsV : List (List Int)
+
+def pairSearch (depth : Nat) (st : EncChan) (ls rs : List Int) : PairChoice :=
+  let n := ls.length
+  let chanBits := depth - 8 * bytesShiftedOf depth + 1
+  let ms := mixSearch depth chanBits st (ls.take (n / 8)) (rs.take (n / 8))
+  let m := mixPairs depth (bytesShiftedOf depth) ms.best.toNat ls rs
+  let t4 := pairTry chanBits 4 n m.1 m.2.1 ms.pcU ms.pcV ms.rowsU ms.rowsV
+  let t8 := pairTry chanBits 8 n m.1 m.2.1 ms.pcU ms.pcV t4.2.2.1 t4.2.2.2
+  { bestRes := ms.best, numU := if t8.1 < t4.1 then 8 else 4, numV := if t8.2.1 < t4.2.1 then 8 else 4,
+    est := (if t8.1 < t4.1 then t8.1 else t4.1) + (if t8.2.1 < t4.2.1 then t8.2.1 else t4.2.1), rowsU := t8.2.2.1, rowsV := t8.2.2.2 }
+
 /-- EncodeStereo -/
 def encPair (depth frameSize : Nat) (st : EncChan) (ls rs : List Int) : Bits × EncChan :=
   let n := ls.length
   let bs := bytesShiftedOf depth
-  let shift := 8 * bs
-  let chanBits := depth - shift + 1
-  let partialFrame := n ≠ frameSize
-  -- the mixRes search on the first n / 8 frames with 8 coefficients
-  let lsd := ls.take (n / 8)
-  let rsd := rs.take (n / 8)
-  let step (acc : Nat × Int × List (List Int) × List (List Int) × List Int × List Int) (mixRes : Nat) :=
-    let (minB, best, rowsU, rowsV, _, _) := acc
-    let (u, v, _) := mixPairs depth bs mixRes lsd rsd
-    let (pcU, coU) := pcBlock u (rowsU.getD 7 []) 8 chanBits 9
-    let (pcV, coV) := pcBlock v (rowsV.getD 7 []) 8 chanBits 9
-    let b := (dynComp stdAg pcU chanBits).length + (dynComp stdAg pcV chanBits).length
-    let (minB, best) := if b < minB then (b, (mixRes : Int)) else (minB, best)
-    (minB, best, rowsU.set 7 coU, rowsV.set 7 coV, pcU, pcV)
-  let (_, bestRes, rowsU, rowsV, staleU, staleV) := [0, 1, 2, 3, 4].foldl step (2147483648, st.lastMixRes, st.coefsU, st.coefsV, [], [])
-  let mixRes := bestRes.toNat
-  let (u, v, sh) := mixPairs depth bs mixRes ls rs
-  -- the predictor order search: 8 converge rounds on n / 32 frames, the bit count over n / 8 residuals of mPredictorU / V — of which
-  -- only the first n / 32 are from this round, the others are what the mixRes loop left there
-  let try2 (rowsU rowsV : List (List Int)) (numUV : Nat) : Nat × Nat × List (List Int) × List (List Int) :=
-    let (pcU, rowsU, pcV, rowsV) := (List.range 8).foldl (fun (a : List Int × List (List Int) × List Int × List (List Int)) _ =>
-      let (_, rowsU, _, rowsV) := a
-      let (pU, cU) := pcBlock (u.take (n / 32)) (rowsU.getD (numUV - 1) []) numUV chanBits 9
-      let (pV, cV) := pcBlock (v.take (n / 32)) (rowsV.getD (numUV - 1) []) numUV chanBits 9
-      (pU, rowsU.set (numUV - 1) cU, pV, rowsV.set (numUV - 1) cV)) ([], rowsU, [], rowsV)
-    -- mPredictorU / V [0 .. n / 8): the round's residuals, then what its warm-up loop stored up to index numUV, then the older content
-    let predOf (x fresh stale : List Int) : List Int :=
-      (List.range (n / 8)).map fun i =>
-        if i < fresh.length then fresh.getD i 0
-        else if i ≤ numUV then (if i = 0 then x.getD 0 0 else sx chanBits (w32 (x.getD i 0 - x.getD (i - 1) 0)))
-        else stale.getD i 0
-    let predU := predOf u pcU staleU
-    let predV := predOf v pcV staleV
-    ((dynComp stdAg predU chanBits).length * 8 + 16 * numUV, (dynComp stdAg predV chanBits).length * 8 + 16 * numUV, rowsU, rowsV)
-  let (u4, v4, rowsU, rowsV) := try2 rowsU rowsV 4
-  let (u8, v8, rowsU, rowsV) := try2 rowsU rowsV 8
-  let (numU, minBits1) := if u8 < u4 then (8, u8) else (4, u4)
-  let (numV, minBits2) := if v8 < v4 then (8, v8) else (4, v4)
-  let minBits := minBits1 + minBits2 + 64 + (if partialFrame then 32 else 0) + (if bs ≠ 0 then n * shift * 2 else 0)
-  let escapeBits := n * depth * 2 + (if partialFrame then 32 else 0) + 16
+  let chanBits := depth - 8 * bs + 1
+  let c := pairSearch depth st ls rs
+  let minBits := c.est + 64 + (if n ≠ frameSize then 32 else 0) + (if bs ≠ 0 then n * (8 * bs) * 2 else 0)
+  let escapeBits := n * depth * 2 + (if n ≠ frameSize then 32 else 0) + 16
   let escBits := encPairEsc Rules.current depth n ls rs ([], [])
-  let st1 : EncChan := { coefsU := rowsU, coefsV := rowsV, lastMixRes := bestRes }
-  if minBits ≥ escapeBits then (escBits, st1)
+  if minBits ≥ escapeBits then (escBits, { coefsU := c.rowsU, coefsV := c.rowsV, lastMixRes := c.bestRes })
   else
-    let cU := rowsU.getD (numU - 1) []
-    let cV := rowsV.getD (numV - 1) []
-    let (pcU, coU) := pcBlock u cU numU chanBits 9
-    let (pcV, coV) := pcBlock v cV numV chanBits 9
-    let st2 : EncChan := { st1 with coefsU := rowsU.set (numU - 1) coU, coefsV := rowsV.set (numV - 1) coV }
+    let cU := c.rowsU.getD (c.numU - 1) []
+    let cV := c.rowsV.getD (c.numV - 1) []
+    let m := mixPairs depth bs c.bestRes.toNat ls rs
+    let st2 : EncChan := { coefsU := c.rowsU.set (c.numU - 1) (pcBlock m.1 cU c.numU chanBits 9).2,
+                           coefsV := c.rowsV.set (c.numV - 1) (pcBlock m.2.1 cV c.numV chanBits 9).2, lastMixRes := c.bestRes }
     -- BitBufferWrite (mixRes, 8): the low 8 bits (bestRes is 0 … 4, or a stale mLastMixRes)
-    let bits := compPairBits depth frameSize ls rs (wrapU 8 bestRes) cU cV numU numV
-    let _ := (sh, pcU, pcV)
+    let bits := compPairBits depth frameSize ls rs (wrapU 8 c.bestRes) cU cV c.numU c.numV
     if bits.length ≥ escapeBits then (escBits, st2) else (bits, st2)
 
 /-- the elements of `alac_encode`: every element keeps its coefficient state at its channel index -/
